@@ -1,4 +1,5 @@
 import Blots.Lemmas.Emit
+import Blots.Lemmas.EmitParse
 /-
   C05 — function outputs are portable: emitted source reloads to an equivalent function.
 
@@ -36,10 +37,20 @@ import Blots.Lemmas.Emit
        (`extendLambdaBody_graft`), equivalence of calls (`reload_equiv_partial`), fixed point
        of re-emission (`re_emit_fixed_point`, `re_emit_same_text`).
 
+   (F) END TO END, no parser parameter (`Lemmas/EmitParse.lean`): the interface instantiated by
+       the MODEL PARSER (`pfModel` / `pbModel` over `ExprPeg.parseText`, the character-level PEG
+       model of C10) and both interface equations PROVED for the class `Portable` — bodies in
+       the intersection of `Emit.frag` and the PEG fragment, literal captures whose text is in
+       the PEG fragment, negative integers (emitted `(-n)`, redundant parentheses) included:
+       `model_parser_meets_interface`, `emitted_text_parses_as_function`,
+       `reload_equiv_fragment` (closed after capture) / `reload_equiv_fragment_open`.
+
   NOT proved: the full statements `subst_lemma_statement` / `reload_equiv_statement` (bodies
   with calls, lambda expressions, `output`; captured closures): they need a logical relation
   between closures ("equal up to inlining of their captured scopes") instead of equality of
-  values; and the character-level parse-back itself (interface hypotheses).
+  values; and the character-level parse-back OUTSIDE the class of (F) (strings, records,
+  do-blocks, non-integer numbers: not yet in the PEG model; there the interface hypotheses of
+  (E) remain).
 -/
 namespace Blots.C05
 open Blots.Emit Blots.PrintL
@@ -401,6 +412,164 @@ theorem captured_closure_literal (pb : ParseBody) (id : Nat) (args : List LArg) 
   simp only [String.append_assoc]
   rw [show ("((" : String) = "(" ++ "(" by decide, String.append_assoc]
 
+/-! ### (F) end to end: the text interface discharged with the model parser -/
+
+section endToEnd
+open Blots.EmitParse
+
+/-- THE CLASS `Portable ps body sc` (decidable: `portable ps body sc = true`) is inside both
+    fragments: the body is in the C05 fragment `frag` of the substitution lemma and, with its
+    substituted form, in the PEG fragment `ExprPeg.Frag` of the C10 round trip, and it is no
+    `via` / `into` / `where` chain — so the emitter's unparenthesised top-level body is the
+    simple case and `extend_lambda_body` (`extendLambdaBody_graft`) has nothing to repair.
+    (`frag` excludes `via` / `into` / `where` anyway: they call.) -/
+theorem portable_in_both_fragments (pb : ParseBody) (ps : List LArg) (body : Expr) (sc : Scope)
+    (h : Portable ps body sc) :
+    frag body = true ∧ ExprPeg.Frag body ∧ ExprPeg.Frag (substExpr pb sc body) ∧
+      lambdaBodyNeedsParens body = false :=
+  ⟨bodyOkB_emitFrag false body h.body, bodyOkB_pegFrag false body h.body,
+    subst_fragB pb sc h.scope false body h.body, bodyOk_lbnp false body h.body⟩
+
+/-- THE MODEL PARSER MEETS THE INTERFACE: for every function of the class, the two parse-back
+    hypotheses of `reload_structure` / `reload_equiv_partial` hold with `pf := pfModel`
+    (`parse_function_source` over the model parser) and `pb := pbModel` (the model parser):
+    the emitted `__blots_function` text is read as the parameters and the print of the
+    substituted body, and that print is read as the substituted body.  The emitted text is in
+    general NOT the print of the substituted tree (a captured `-4` is written `(-4)` everywhere,
+    see `emitted_text_is_not_the_plain_print`); the proof goes through the concrete syntax tree
+    of the emitted text (`EmitParse.emitCst`) and `ExprPeg.cst_roundtrip`. -/
+theorem model_parser_meets_interface (ps : List LArg) (body : Expr) (sc : Scope)
+    (h : Portable ps body sc) :
+    pfModel (lambdaSource ps (exprSrc sc body)) = some (ps, exprSrc [] (substExpr pbModel sc body)) ∧
+    pbModel (exprSrc [] (substExpr pbModel sc body)) = some (substExpr pbModel sc body) :=
+  ⟨pfModel_emitted pbModel sc h.scope ps body h.params h.body,
+    subst_body_reparses pbModel sc h.scope body h.body⟩
+
+/-- THE EMITTED TEXT PARSES AS A FUNCTION (the first clause of the property): for every function
+    of the class the text stored under `__blots_function` is read by the model parser, as a
+    whole, to a lambda expression with the SAME parameter list, whose body is the original body
+    with the captured literals inlined; it is never mistaken for a built-in name; and
+    `parse_function_source` answers that parameter list. -/
+theorem emitted_text_parses_as_function (ps : List LArg) (body : Expr) (sc : Scope)
+    (h : Portable ps body sc) :
+    ExprPeg.parseText (lambdaSource ps (exprSrc sc body)) =
+      some (.lambda ps (substExpr pbModel sc body)) ∧
+    isBuiltinName (lambdaSource ps (exprSrc sc body)) = false ∧
+    (pfModel (lambdaSource ps (exprSrc sc body))).map Prod.fst = some ps := by
+  refine ⟨emitted_text_parses pbModel sc h.scope ps body h.params h.body,
+    lambdaSource_not_builtin _ _, ?_⟩
+  rw [pfModel_emitted pbModel sc h.scope ps body h.params h.body]; rfl
+
+/-- WHY THE PROOF CANNOT GO THROUGH `emit_is_substitution_partial`: inside the class the emitted
+    text differs from the plain print of the substituted tree — witness `(x) => x - n` with
+    `n = -4` captured: emitted body `x - (-4)`, plain print `x - -4` (both read back to the same
+    tree, which is what `model_parser_meets_interface` says). -/
+theorem emitted_text_is_not_the_plain_print :
+    ∃ (ps : List LArg) (body : Expr) (sc : Scope), Portable ps body sc ∧
+      exprSrc sc body ≠ exprSrc [] (substExpr pbModel sc body) := by
+  refine ⟨[.req "x"], .bin .sub (.ident "x") (.ident "n"),
+    [("n", .num (F64.ofNatBits 0xC010000000000000))], (portable_iff _ _ _).mp (by decide +kernel), ?_⟩
+  intro h
+  have := congrArg String.toList h
+  revert this
+  decide +kernel
+
+/-- RELOAD GIVES AN EQUIVALENT FUNCTION, END TO END (no hypothesis about any parser), for
+    functions that may still read names from the environment.  Original: `.lambda idA ps body
+    scope` in a state `sA`; `sc` = `from_captured_value` of its captured scope; the function is
+    in the class `Portable`.  The value written by `to_json` and loaded again through
+    emit → text → MODEL parser → `to_value` is `.lambda 0 ps (substExpr sc body) []`, and for
+    every argument tuple, depth, caller and fuel, whenever the original call gives an answer
+    (value or error, including arity and depth errors) the reloaded one gives the same answer
+    (with `scopeFuel sc` more fuel: the literals have to be evaluated).  `hfree` / `hin`: names
+    the body reads that are neither parameters nor captured, and `inputs`, are resolved alike by
+    the two programs (see `reload_equiv_partial`; vacuous for closed functions:
+    `reload_equiv_fragment`). -/
+theorem reload_equiv_fragment_open (ops : NumOps) (idA : Nat) (ps : List LArg) (body : Expr)
+    (scope : Frame) (sc : Scope) (sA sB : ES)
+    (hsc : capturedRecToSV scope = some sc)
+    (hport : Portable ps body sc)
+    (hfree : ∀ n, FreeIn n body → n ∉ ps.map LArg.name → lookupAL n sc = none →
+      envGet sA.env n = envGet sB.env n ∧ nameOf sA.names idA ≠ some n ∧ nameOf sB.names 0 ≠ some n)
+    (hin : envGet sA.env "inputs" = envGet sB.env "inputs" ∧
+      nameOf sA.names idA ≠ some "inputs" ∧ nameOf sB.names 0 ≠ some "inputs") :
+    valueToSV (.lambda idA ps body scope) = some (.lambda ps (exprSrc sc body)) ∧
+    readJson pfModel pbModel (toJson (.lambda ps (exprSrc sc body))) =
+      .ok (.lambda 0 ps (substExpr pbModel sc body) []) ∧
+    ∀ (thisA thisB : Value) (args : List Value) (depth f : Nat),
+      (callFn ops (f + 1) (.lambda idA ps body scope) thisA args depth sA).1 ≠ .fuel →
+      (callFn ops (f + scopeFuel sc + 1) (.lambda 0 ps (substExpr pbModel sc body) []) thisB args
+          depth sB).1 =
+        (callFn ops (f + 1) (.lambda idA ps body scope) thisA args depth sA).1 := by
+  obtain ⟨hpf, hpb⟩ := model_parser_meets_interface ps body sc hport
+  have h := reload_equiv_partial ops pfModel pbModel (scopeFuel sc) idA ps body scope sc sA sB
+    (bodyOkB_emitFrag false body hport.body) hsc (fun n sv hl => hport.captured n sv hl) hfree hin
+    hpf hpb
+  exact ⟨by simp [valueToSV, hsc], h.1, h.2⟩
+
+/-- RELOAD GIVES AN EQUIVALENT FUNCTION, END TO END, for functions that are CLOSED AFTER CAPTURE
+    (`closedAfterCapture`: every name the body reads is a parameter or captured — decidable):
+    no hypothesis about any parser, none about free names.  Class covered: `Portable ps body sc`
+    (decidable, `portable`) =
+      * parameter names that are identifiers (not reserved words);
+      * body (`bodyOk`): binary operators except `via` / `into` / `where`, prefix `-` / `!`,
+        postfix `!`, index, field access (identifier field names), list literals (items
+        possibly spread, no comments), conditionals, parentheses as the printer places them;
+        atoms: identifiers that are neither reserved words nor built-in names, built-in names,
+        `true` / `false` / `null`, integers `0 ≤ n < 10^15`;
+      * captured values (`litOk`): integers `|n| < 10^15` of either sign (`-0.0` included;
+        negative ones are emitted as `(-n)`), booleans, `null`, built-in functions, nested
+        lists of these; bound to names other than `inf` / `infinity` / `constants` /
+        `inputs` / a parameter.
+    Excluded: calls, `via` / `into` / `where`, lambda expressions and captured closures,
+    `output`, nested assignments (no logical relation between closures yet:
+    `subst_lemma_statement`; the last is a genuine defect: `nested_assignment_breaks_reload`);
+    strings, records, do-blocks, `#field`, non-integer and huge numbers, NaN / ±inf captures
+    (not yet in the character-level grammar model: for these `reload_equiv_partial` with its
+    explicit interface hypotheses remains). -/
+theorem reload_equiv_fragment (ops : NumOps) (idA : Nat) (ps : List LArg) (body : Expr)
+    (scope : Frame) (sc : Scope) (sA sB : ES)
+    (hsc : capturedRecToSV scope = some sc)
+    (hport : Portable ps body sc)
+    (hclosed : closedAfterCapture ps body sc = true)
+    (hin : envGet sA.env "inputs" = envGet sB.env "inputs" ∧
+      nameOf sA.names idA ≠ some "inputs" ∧ nameOf sB.names 0 ≠ some "inputs") :
+    valueToSV (.lambda idA ps body scope) = some (.lambda ps (exprSrc sc body)) ∧
+    readJson pfModel pbModel (toJson (.lambda ps (exprSrc sc body))) =
+      .ok (.lambda 0 ps (substExpr pbModel sc body) []) ∧
+    ∀ (thisA thisB : Value) (args : List Value) (depth f : Nat),
+      (callFn ops (f + 1) (.lambda idA ps body scope) thisA args depth sA).1 ≠ .fuel →
+      (callFn ops (f + scopeFuel sc + 1) (.lambda 0 ps (substExpr pbModel sc body) []) thisB args
+          depth sB).1 =
+        (callFn ops (f + 1) (.lambda idA ps body scope) thisA args depth sA).1 :=
+  reload_equiv_fragment_open ops idA ps body scope sc sA sB hsc hport
+    (fun n hf hp hl => (closed_no_free hport.body hclosed n hf hp hl).elim) hin
+
+/-- … and the reloaded function is a fixed point of emit ∘ reload under the model parser: its
+    own emitted text (empty scope: the plain print) loads to the very same function value. -/
+theorem re_emit_fixed_point_fragment (ps : List LArg) (body : Expr) (sc : Scope)
+    (h : Portable ps body sc) :
+    readJson pfModel pbModel (toJson (.lambda ps (exprSrc [] (substExpr pbModel sc body)))) =
+      .ok (.lambda 0 ps (substExpr pbModel sc body) []) := by
+  have hf : ExprPeg.Frag (substExpr pbModel sc body) := subst_fragB pbModel sc h.scope false body h.body
+  have hl : ExprPeg.Frag (.lambda ps (substExpr pbModel sc body)) := by
+    simp only [ExprPeg.Frag, ExprPeg.frag_lambda_iff, h.params, Bool.true_and]; exact hf
+  have hb := subst_body_reparses pbModel sc h.scope body h.body
+  have h1 := ExprPeg.cst_roundtrip (ExprPeg.canon _) (ExprPeg.canon_wf _ hl)
+  rw [ExprPeg.canon_text_frag _ hl, String.ofList_toList, ExprPeg.canon_tree_frag _ hl] at h1
+  have hlb : lambdaBodyNeedsParens (substExpr pbModel sc body) = false := by
+    rw [lbnp_subst' pbModel sc h.scope body]; exact bodyOk_lbnp false body h.body
+  have h2 : exprToSource (.lambda ps (substExpr pbModel sc body)) =
+      lambdaSource ps (exprSrc [] (substExpr pbModel sc body)) := by
+    simp only [lambdaSource, exprToSource, exprSrc, ExprPeg.foldl_scopeRemove_nil, hlb, parenIf,
+      Bool.false_eq_true, if_false]
+  refine (re_emit_fixed_point pfModel pbModel ps _ ?_ hb).2
+  show (ExprPeg.parseText (lambdaSource ps (exprSrc [] (substExpr pbModel sc body)))).bind
+    (fun e => parseFunctionSource [e]) = _
+  rw [← h2, h1]; rfl
+
+end endToEnd
+
 /-! ### a genuine defect: assignments that are not direct do-block statements -/
 
 section defect
@@ -578,6 +747,64 @@ example : graftChain [.req "x"] (.bin .via (.ident "a") (.ident "f")) =
   simp +decide [graftChain, lambdaBodyNeedsParens]
 example : extendLambdaBody (.bin .via (.lambda [.req "x"] (.ident "a")) (.ident "f")) =
     .lambda [.req "x"] (.bin .via (.ident "a") (.ident "f")) := rfl
+/- (F) end to end with the model parser.  The closure
+   `(a, b?) => [a + k * 2, if a > k then -a else n!, [a, k][0], a - n]` with captured `k = 3`,
+   `n = -4`: every hypothesis of `reload_equiv_fragment` by `decide` -/
+section endToEndExample
+open Blots.EmitParse
+private abbrev negFour : F64 := F64.ofNatBits 0xC010000000000000
+private abbrev two : F64 := F64.ofNatBits 0x4000000000000000
+private abbrev xa : Expr := .ident "a"
+private abbrev xk : Expr := .ident "k"
+private abbrev xn : Expr := .ident "n"
+private abbrev fBody : Expr :=
+  .list [Item.plain (.bin .add xa (.bin .mul xk (.num two))),
+    Item.plain (.cond (.bin .gt xa xk) (.un .negate xa) (.fact xn)),
+    Item.plain (.access (.list [Item.plain xa, Item.plain xk]) (.num int0)),
+    Item.plain (.bin .sub xa xn)]
+private abbrev fPs : List LArg := [.req "a", .opt "b"]
+private abbrev fScope : Frame := [("k", .num int3), ("n", .num negFour)]
+private abbrev fSc : Scope := [("k", .num int3), ("n", .num negFour)]
+private abbrev stF : ES := { env := [[]], nextId := 8, names := [] }
+
+example : capturedRecToSV fScope = some fSc := rfl
+example : portable fPs fBody fSc = true := by decide +kernel
+example : closedAfterCapture fPs fBody fSc = true := by decide +kernel
+example : scopeFuel fSc = 2 := by decide +kernel
+/-- the emitted text: the captured `-4` is written `(-4)` at both occurrences … -/
+example : (lambdaSource fPs (exprSrc fSc fBody)).toList =
+    "(a, b?) => [a + 3 * 2, if a > 3 then -a else (-4)!, [a, 3][0], a - (-4)]".toList := by
+  decide +kernel
+/-- … the plain print of the substituted body needs the parentheses only under `!` -/
+example : (exprSrc [] (substExpr pbModel fSc fBody)).toList =
+    "[a + 3 * 2, if a > 3 then -a else (-4)!, [a, 3][0], a - -4]".toList := by decide +kernel
+/-- … and the model parser, RUN on the emitted text (no theorem involved), answers the
+    parameters and that plain print -/
+example : (pfModel "(a, b?) => [a + 3 * 2, if a > 3 then -a else (-4)!, [a, 3][0], a - (-4)]").map
+      (fun r => (r.1.map lambdaArgToSource, r.2)) =
+    some (["a", "b?"], "[a + 3 * 2, if a > 3 then -a else (-4)!, [a, 3][0], a - -4]") := by
+  decide +kernel
+example : Portable fPs fBody fSc := (portable_iff _ _ _).mp (by decide +kernel)
+/-- parses as a function with the same parameters -/
+example : ExprPeg.parseText (lambdaSource fPs (exprSrc fSc fBody)) =
+    some (.lambda fPs (substExpr pbModel fSc fBody)) :=
+  (emitted_text_parses_as_function fPs fBody fSc ((portable_iff _ _ _).mp (by decide +kernel))).1
+/-- reload ≡ original for every argument tuple, caller, depth and fuel -/
+example (thisA thisB : Value) (args : List Value) (depth f : Nat)
+    (h : (callFn intOps (f + 1) (.lambda 7 fPs fBody fScope) thisA args depth stF).1 ≠ .fuel) :
+    readJson pfModel pbModel (toJson (.lambda fPs (exprSrc fSc fBody))) =
+      .ok (.lambda 0 fPs (substExpr pbModel fSc fBody) []) ∧
+    (callFn intOps (f + 2 + 1) (.lambda 0 fPs (substExpr pbModel fSc fBody) []) thisB args depth stF).1 =
+      (callFn intOps (f + 1) (.lambda 7 fPs fBody fScope) thisA args depth stF).1 := by
+  have H := reload_equiv_fragment intOps 7 fPs fBody fScope fSc stF stF rfl
+    ((portable_iff _ _ _).mp (by decide +kernel)) (by decide +kernel)
+    ⟨rfl, by simp [nameOf], by simp [nameOf]⟩
+  exact ⟨H.2.1, H.2.2 thisA thisB args depth f h⟩
+/-- outside the class: a call in the body, a string capture, a reserved parameter name -/
+example : bodyOk (.call xa [xk]) = false ∧ bodyOk (.bin .via xa xk) = false ∧
+    litOk (.str "s") = false ∧ litOk (.num F64.nan) = false ∧ litOk (.num F64.negZero) = true ∧
+    portable [.req "if"] xa [] = false := by decide +kernel
+end endToEndExample
 end examples
 
 end Blots.C05
